@@ -25,6 +25,12 @@ Valid == {A1, A2, A3, B1, B2, B3}
 \* mutations of the property's quantifier; all carry a timestamp that would win if stored
 Relabel   == [V("k1", "d1", 31, "W", "r1") EXCEPT !.label = "k1|d2"]   \* re-filed under the other slot
 RelabelK  == [V("k1", "d1", 32, "W", "r1") EXCEPT !.label = "k2|d1"]   \* re-filed under another key
+\* the label is an unsigned free string: relabellings that are structurally related to the signed slot
+\* (signed key a proper prefix of the target key, with and without the key/peer separator in between; target key a
+\* proper prefix of the signed key) - a slot comparison done piecewise must still reject all of them
+RelabelExt == [V("k1", "d1", 40, "W", "r1") EXCEPT !.label = "k1x|d1"]     \* target key extends the signed key
+RelabelSep == [V("k1", "d1", 41, "W", "r1") EXCEPT !.label = "k1-k2|d1"]   \* ... by separator + another key
+RelabelCut == [V("k1x", "d1", 42, "W", "r1") EXCEPT !.label = "k1|d1"]     \* target key is a prefix of the signed key
 BadDev    == [V("k1", "d1", 33, "W", "r1") EXCEPT !.sigDev = FALSE]    \* device signature by somebody else
 BadAcc    == [V("k1", "d2", 33, "W", "r1") EXCEPT !.sigAcc = FALSE]    \* account signature by somebody else
 Flipped   == [V("k1", "d1", 34, "W", "r1") EXCEPT !.sigDev = FALSE, !.sigAcc = FALSE, !.mut = "flip"] \* one value byte changed
@@ -36,7 +42,7 @@ Late      == V("k1", "d2", 39, "L", "r3")                              \* authen
 Negative  == V("k1", "d2", 0 - 1, "W", "r1")                           \* negative timestamp
 Huge1     == V("k1", "d1", 99, "W", "r1")                              \* 2^53+3 (rounded to 2^53+4 by the row field)
 Huge2     == V("k1", "d1", 100, "W", "r1")                             \* 2^53+4
-Mutants == {Relabel, RelabelK, BadDev, BadAcc, Flipped, ByReader, ByRemoved, PreMember, Unknown, Late, Negative, Huge1, Huge2}
+Mutants == {Relabel, RelabelK, RelabelExt, RelabelSep, RelabelCut, BadDev, BadAcc, Flipped, ByReader, ByRemoved, PreMember, Unknown, Late, Negative, Huge1, Huge2}
 
 \* universes of the configurations
 U_lww   == Valid \cup {Relabel, ByReader}
